@@ -45,7 +45,7 @@ func (c14) Describe() CheckInfo {
 		},
 		RealCode:       []string{"gopatch main()/mainCmd.Run, patchRunner, patch.Parse/File.Apply, internal/engine (compiled program, dotAssoc maps), go/token.FileSet shared across files and calls"},
 		Stubs:          []string{"package os", "path/filepath walk", "io/ioutil", "time (simulated clock)", "math/rand top-level functions (seeded by the harness)", "choice of which caller goroutine runs next (simrt scheduler)"},
-		RequiredProbes: []string{"cli-grouped-vs-solo", "cli-permutation", "cli-unparseable-neighbour", "cli-repeat-identical", "hist-call", "hist-failing-call", "hist-result-held", "sched-run", "sched-overlap", "sched-preempt-sweep", "sched-concurrent-parse", "sched-pct", "sched-two-switch-site-uniform", "race-log-checked", "sched-same-filename", "cli-respelled-duplicate", "cli-module-root-in-tree", "cli-two-packages-in-one-directory", "cli-more-files-than-descriptors", "cli-neighbour-write-fault", "cli-special-imports-before-ungrouped", "cli-underscore-or-dot-named-file"},
+		RequiredProbes: []string{"cli-grouped-vs-solo", "cli-permutation", "cli-unparseable-neighbour", "cli-repeat-identical", "hist-call", "hist-failing-call", "hist-result-held", "sched-run", "sched-overlap", "sched-preempt-sweep", "sched-concurrent-parse", "sched-pct", "sched-two-switch-site-uniform", "race-log-checked", "sched-same-filename", "cli-respelled-duplicate", "cli-module-root-in-tree", "cli-two-packages-in-one-directory", "cli-more-files-than-descriptors", "cli-neighbour-write-fault", "cli-special-imports-before-ungrouped", "cli-underscore-or-dot-named-file", "cli-more-than-five-hundred-files"},
 	}
 }
 
@@ -306,11 +306,34 @@ func c14GenCLI(r *world.PRNG, seed uint64, i int) *Case {
 		c.Spec.Knobs.MaxOpenFiles = r.Range(8, 16)
 		c.Extra["fd_limit"] = "1"
 	}
+	if i%1800 == 9 {
+		// (every 600th CLI world) several hundred files in one invocation, all of which get an import added,
+		// by a patch whose first line is very long: whatever is kept per run (position
+		// tables, caches) and renewed after so-and-so many files shows in the late ones
+		for i := range c.Patches {
+			if c.Patches[i].Via != "p" {
+				c.Patches[i].Via = "p"
+				if c.Patches[i].Path == "stdin" {
+					c.Patches[i].Path = PatDir + "/p0.patch"
+					c.SetNode(world.NodeSpec{Path: c.Patches[i].Path, Kind: "file", Data: c.Patches[i].Data})
+				}
+			}
+		}
+		ai := TemplateByName("add-import")
+		c.AddPatch("long.patch", "p", []byte("# "+strings.Repeat("a very long description line ", 24)+"\n"+ai.Patch(77)), nil, nil)
+		for k := 0; k < r.Range(515, 560); k++ {
+			c.AddFile(fmt.Sprintf("bulk/f%03d.go", k), []byte(fmt.Sprintf("package bulk\n\n// U%03d is documented.\nfunc U%03d() {\n\t// inside U%03d\n\tvfOld77()\n}\n", k, k, k)), "match", nil, "bulk")
+		}
+		c.Extra["bulk_files"] = "1"
+	}
 	AddDecoys(c, r)
-	if r.Chance(1, 5) {
+	if r.Chance(1, 5) && c.Extra["bulk_files"] != "1" {
 		AddHardlinkTarget(c, r)
 	}
 	c.Flags = Flags{SkipImport: r.Chance(1, 4), SkipGen: r.Chance(1, 2), Verbose: false}
+	if c.Extra["bulk_files"] == "1" {
+		c.Flags.SkipImport = false
+	}
 	for _, f := range c.Files {
 		c.Targets = append(c.Targets, strings.TrimPrefix(f.Path, ProjDir+"/"))
 	}
@@ -483,6 +506,9 @@ func c14EvalCLI(env *Env, c *Case) []Violation {
 	if c.Extra["special_imports"] == "1" {
 		env.Probe("cli-special-imports-before-ungrouped")
 	}
+	if c.Extra["bulk_files"] == "1" {
+		env.Probe("cli-more-than-five-hundred-files")
+	}
 	if c.Extra["underscore_named"] == "1" {
 		env.Probe("cli-underscore-or-dot-named-file")
 	}
@@ -511,6 +537,9 @@ func c14EvalCLI(env *Env, c *Case) []Violation {
 		for k := 0; k < 6; k++ {
 			perms = append(perms, pr.Perm(n))
 		}
+	}
+	if c.Extra["bulk_files"] == "1" {
+		perms = perms[:2] // hundreds of files: two orders are enough
 	}
 	variants := 0
 	for pi, perm := range perms {
